@@ -721,7 +721,7 @@ func runBubble(p *Plan, out *sim.Outcome, log *sim.Log) (*runState, *sim.Violati
 			return nil
 		}
 		if r := given(H + 1); viol == nil && r != nil {
-			cause, detail := "stalled", "the drain goroutine was never woken for it"
+			cause, detail := "stalled", "it was never handed to AddItem at a height where it fits (drain goroutine idle)"
 			for _, rj := range h.rejects {
 				if rj.idx == H+1 && rj.step >= r.step && rj.height+1 < rj.idx {
 					cause = "dropped-ahead-of-tip"
